@@ -85,7 +85,9 @@ HARD_TIMEOUT = 90.0
 NOTE_EVERY = 16
 LATTICE = [0, 1, 65535, 2 ** 32 - 1]
 OVW = ["00", "ff", "x01", "x80"]
-SEAMS = ["direct", "read_file", "zipmember", "eml", "cli", "cli-json", "cli-json-unit"]
+SEAMS = ["direct", "read_file", "zipmember", "eml", "cli", "cli-json", "cli-json-unit", "nopath"]
+# nopath (wave 8): the extractor called as `read_x(stream)` - the path parameter is optional (`path: str | None = None`) in every
+# extractor, so the failure surface must be the same without it (error paths that format or inspect the path see None there)
 CLI_ARGV = {"cli": [], "cli-json": ["--json"], "cli-json-unit": ["--json-unit"], "cli-json-binary": ["--json", "--binary"],
             "cli-json-unit-binary": ["--json-unit", "--binary"], "cli-binary": ["--binary"]}
 CLI_MODES = list(CLI_ARGV)
@@ -95,6 +97,7 @@ STDOUTS_THOROUGH = STDOUTS_QUICK + ["latin-1", "utf-16"]
 VIA = {"read_file": ["tempfile", "read_file"], "zipmember": ["zip-member", "read_archive"],
        "eml": ["eml-attachment", "read_eml", "iterate_supported_attachments"]}
 VIA.update({m: ["tempfile", "cli.main"] + a for m, a in CLI_ARGV.items()})
+VIA["nopath"] = ["extractor", "path=None"]
 VIA.update({"att-eml": ["eml-attachment", "read_eml", "iterate_supported_attachments"],
             "att-mbox": ["mbox-attachment", "read_mbox", "iterate_supported_attachments"],
             "att-eml-file": ["eml-attachment", "tempfile", "read_file", "iterate_supported_attachments"],
@@ -603,7 +606,7 @@ def _byte_ops(n: int, offsets) -> list:
 
 SEAM_PLAN = {   # seam -> (byte stride quick, thorough; container-aware step quick, thorough)
     "read_file": (256, 64, 16, 4), "zipmember": (256, 64, 16, 4), "eml": (256, 64, 16, 4),
-    "cli": (128, 32, 8, 2), "cli-json": (64, 8, 4, 1), "cli-json-unit": (128, 32, 8, 2),
+    "cli": (128, 32, 8, 2), "cli-json": (64, 8, 4, 1), "cli-json-unit": (128, 32, 8, 2), "nopath": (256, 64, 16, 4),
 }
 
 
@@ -659,7 +662,7 @@ def group_cases(tier: str, group: str) -> list:
                 if seam in ("zipmember", "eml") and ((seam == "zipmember" and to == "archive") or n > 600_000):
                     continue
                 ops = [["id"]]
-                if seam in ("read_file", "cli", "cli-json"):
+                if seam in ("read_file", "cli", "cli-json", "nopath"):
                     ops += [["trunc", o] for o in _even_offsets(n, 2 if quick else 4)]
                 out += [{"src": f"F:{rel}", "to": to, "seam": seam, "via": VIA[seam], "op": op} for op in ops]
     elif group == "text":
@@ -1047,6 +1050,8 @@ def run_seam(case, data: bytes, ext: str, wrapped):
     try:
         if seam == "direct":
             res = list(_extractor(to)(io.BytesIO(data), "case." + ext))
+        elif seam == "nopath":
+            res = list(_extractor(to)(io.BytesIO(data)))
         elif seam == "read_file":
             import sharepoint2text
             path = os.path.join(_tmpdir(), fname)
